@@ -300,6 +300,7 @@ func c12replication(r *kernel.Run, seed uint64) {
 				msgEnvs = append(msgEnvs, op.GetValue())
 			}
 		}
+		s.wait() // the store's own reaction to the write runs before the next simulator action
 		if err != nil {
 			r.Infra("session op: %v", err)
 			return
